@@ -19,7 +19,7 @@ from . import common
 from . import c15_sched as S
 
 PROPERTY = 'C15'
-LEAN_TARGETS = ['CpProofs.C15', 'drv_c15']
+LEAN_TARGETS = ['CpProofs.C15', 'CpProofs.C15Conc', 'drv_c15']
 DRIVER = 'drv_c15'
 THEOREMS = [
     'CpProofs.C15.C15_hit_genuine',
@@ -45,6 +45,26 @@ THEOREMS = [
     'CpProofs.C15.C15_size_bounds',
     'CpProofs.C15.C15_stored_objects',
     'CpProofs.C15.C15_object_count',
+    # interleavings (CpModel.CacheConc): every schedule of any number of request threads and the expiry thread
+    'CpProofs.C15Conc.C15_conc_hit_genuine',
+    'CpProofs.C15Conc.C15_conc_hit_genuine_selecting',
+    'CpProofs.C15Conc.C15_conc_fresh_age',
+    'CpProofs.C15Conc.C15_conc_generation_unique',
+    'CpProofs.C15Conc.C15_conc_no_half_stored',
+    'CpProofs.C15Conc.C15_conc_stored_objects',
+    'CpProofs.C15Conc.C15_conc_woken_gets_value',
+    'CpProofs.C15Conc.C15_conc_woken_value_served',
+    'CpProofs.C15Conc.C15_conc_waiter_produces_only_after_timeout',
+    'CpProofs.C15Conc.C15_conc_cursize_upper',
+    'CpProofs.C15Conc.C15_conc_sweep_never_adds',
+    'CpProofs.C15Conc.C15_conc_deleted_stays_deleted',
+    'CpProofs.C15Conc.C15_conc_two_producers_witness',
+    'CpProofs.C15Conc.C15_conc_single_producer_full_false',
+    'CpProofs.C15Conc.C15_conc_cursize_negative_witness',
+    'CpProofs.C15Conc.C15_conc_orphan_bucket_witness',
+    'CpProofs.C15Conc.C15_conc_invalidate_race_witness',
+    'CpProofs.C15Conc.C15_conc_negative_age_witness',
+    'CpProofs.C15Conc.C15_conc_timeout_overwrite_witness',
 ]
 LEVEL = 'proof'
 TECHNIQUE = ('Lean 4 proof: store invariant by induction over all request histories of a transcription of '
@@ -812,13 +832,16 @@ def run_conc(scn, rng=None):
             elif a[0] == 'T':
                 env.clock.now += a[1] / TPS
 
-        if scn.get('acts') is not None:
-            for a in scn['acts']:
-                do(a)
-                acts.append(list(a))
-                snaps.append(snap_real(world, names, obs))
-        else:
-            strat = _Strategy(scn, rng or random.Random(scn.get('seed', 0)))
+        for a in scn.get('acts') or []:
+            do(a)
+            acts.append(list(a))
+            snaps.append(snap_real(world, names, obs))
+        nfixed = len(acts)
+        if True:
+            # a recorded scenario is replayed from its act list; whatever is still unfinished afterwards (a witness
+            # schedule that stops in the interesting state) is run to its end by the strategy
+            strat = _Strategy(dict(scn, plan=None) if scn.get('acts') is not None else scn,
+                              rng or random.Random(scn.get('seed', 0)))
             while True:
                 v = view()
                 if v['spawned'] == v['total'] and all(l is None for l in v['pending'].values()) \
@@ -834,7 +857,7 @@ def run_conc(scn, rng=None):
                     raise common.HarnessError('interleaving scenario did not finish within %d acts' % MAX_ACTS)
         unfinished = [k for k in names if sched.threads[k].status != 'done']
         return {'acts': acts, 'snaps': snaps, 'obs': obs, 'prods': prods, 'spans': spans, 'errors': errors,
-                'unfinished': unfinished, 'names': list(names)}
+                'unfinished': unfinished, 'names': list(names), 'nfixed': nfixed}
     finally:
         sched.release_all()
         S._world[0] = None
@@ -984,7 +1007,7 @@ def _examine_conc(scn):
     res = run_conc(scn, random.Random(scn.get('seed', 0)))
     toks = {k: (_done_token(o) if o is not None else 'EXC') for k, o in res['obs'].items()}
     return {'acts': res['acts'], 'snaps': res['snaps'], 'bad': oracle_conc(scn, res), 'toks': toks,
-            'errors': res['errors'], 'unfinished': res['unfinished'],
+            'errors': res['errors'], 'unfinished': res['unfinished'], 'nfixed': res['nfixed'],
             'nhit': sum(1 for t in toks.values() if t.startswith('H'))}
 
 
@@ -992,7 +1015,9 @@ def _examine_conc_many(scns):
     return [_examine_conc(s) for s in scns]
 
 
-def check_conc(ctx, scns, procs=None):
+def check_conc(ctx, scns, procs=None, expects=None):
+    """expects (witness schedules of the Lean theorems): per scenario a list of [index into the recorded acts
+    (-1: the last recorded one), substring the snapshot there must contain]."""
     if not scns:
         return
     if procs and procs > 1 and len(scns) >= 4 * procs:
@@ -1018,6 +1043,12 @@ def check_conc(ctx, scns, procs=None):
             raise common.HarnessError('interleaving scenario left threads unfinished: %r' % (r['unfinished'],))
         for what, sig in r['bad']:
             ctx.oracle_fail(case, 'interleaving scenario: ' + what, 'conc:' + sig)
+        for at, sub in (expects[idx] if expects else []):
+            k = (r['nfixed'] - 1) if at < 0 else at
+            if k >= len(r['snaps']) or sub not in r['snaps'][k]:
+                ctx.disagree(case, r['snaps'][k] if k < len(r['snaps']) else '(no such act)', sub,
+                             'witness schedule of a Lean theorem: the real threads are not in the proved state after '
+                             'act %d' % k)
         if model_out is not None:
             ctx.compared()
             if r['bad']:
@@ -1560,7 +1591,8 @@ def run(ctx):
     procs = min(ctx.budget(8, 16), os.cpu_count() or 4)
     # interleavings: real request threads + the real expiry thread, one shared-state access per step, every
     # step's shared state compared with CpModel.CacheConc
-    check_conc(ctx, [c['conc'] for c in corpus_cases() if 'conc' in c])
+    cc = [c for c in corpus_cases() if 'conc' in c]
+    check_conc(ctx, [c['conc'] for c in cc], expects=[c.get('expect') or [] for c in cc])
     nconc = ctx.budget(600, 40000)
     done = 0
     while done < nconc:
